@@ -53,6 +53,10 @@ fn real_main() {
     let cmd = std::env::args().nth(1).unwrap_or_default();
     let profile = if cfg!(debug_assertions) { "dbg" } else { "rel" };
     let parity = arg("--parity", "even");
+    if parity == "adjacent" {
+        // third allocator configuration: byte buffers are carved back to back out of one arena
+        oracle::set_adjacent(true);
+    }
     let t0 = std::time::Instant::now();
     match cmd.as_str() {
         "explore" => {
